@@ -82,12 +82,18 @@ def gen_history(rng, nthreads, length):
             ops.append([t, Sym("set"), rng.choice(UNIVERSE), cell(rng, 0.15)])
         elif r < 0.82:
             ops.append([t, Sym("del"), rng.choice(UNIVERSE)])
-        elif r < 0.95:
+        elif r < 0.90:
             ops.append([t, Sym("detype")])
         else:
             idle = [c for c in range(1, nthreads) if depth[c] == 0 and c != t]
             if idle:
                 ops.append([t, Sym("spawn"), rng.choice(idle)])
+                # the spawner moves on before the worker is scheduled (leaves or enters a scope, assigns)
+                if depth[t] > 0 and rng.random() < 0.6:
+                    ops.append([t, Sym("exit")])
+                    depth[t] -= 1
+                elif rng.random() < 0.5:
+                    ops.append([t, Sym("set"), rng.choice(UNIVERSE), cell(rng, 0.1)])
             else:
                 ops.append([t, Sym("detype")])
     for t in range(nthreads):  # close every scope
@@ -112,6 +118,8 @@ class Impl:
         env._detyped = None
         self.workers = [None] + [Worker(f"env-{i}") for i in range(1, nthreads)]
         self.cms = [[] for _ in range(nthreads)]
+        self.exits = 0
+        self.pending = {}  # child thread -> swapped values taken when it was spawned, adopted when it first runs
 
     def on(self, t, fn):
         return fn() if t == 0 else self.workers[t].call(fn)
@@ -144,9 +152,11 @@ class Impl:
                 if not self.cms[t]:
                     return Sym("ok")
                 cm = self.cms[t].pop()
+                self.exits += 1
+                mode = self.exits % 3
                 try:
-                    if len(self.cms[t]) % 2:
-                        # leave by exception: the same `finally` path must restore
+                    if mode == 1:
+                        # leave by an ordinary exception: the same `finally` path must restore
                         try:
                             raise ValueError("leave scope by exception")
                         except ValueError as e:
@@ -154,6 +164,18 @@ class Impl:
 
                             cm.__exit__(*sys.exc_info())
                             del e
+                    elif mode == 2:
+                        # leave by SystemExit / KeyboardInterrupt (an alias calling exit(), Ctrl-C): not an `Exception`
+                        exc = SystemExit(3) if self.exits % 2 else KeyboardInterrupt()
+                        try:
+                            raise exc
+                        except BaseException:  # noqa: BLE001
+                            import sys
+
+                            try:
+                                cm.__exit__(*sys.exc_info())
+                            except (SystemExit, KeyboardInterrupt):
+                                pass
                     else:
                         cm.__exit__(None, None, None)
                     return Sym("ok")
@@ -166,15 +188,26 @@ class Impl:
             raise common.InfraError(name)
 
         if name == "spawn":
-            vals = self.on(t, env.get_swapped_values)
-            self.on(args[0], lambda: env.set_swapped_values(vals))
+            # the spawner takes its swapped values NOW; the worker adopts them only when it is first scheduled
+            self.adopt(t)
+            self.pending[args[0]] = self.on(t, env.get_swapped_values)
             return Sym("ok")
+        self.adopt(t)
         return self.on(t, do)
+
+    def adopt(self, t):
+        if t in self.pending:
+            vals = self.pending.pop(t)
+            self.on(t, lambda: self.env.set_swapped_values(vals))
 
     def views(self):
         env = self.env
         out = []
         for t in range(len(self.workers)):
+            if t in self.pending:
+                out.append(None)  # spawned but not scheduled yet: it has no view of its own
+                continue
+
             def snap():
                 it = set(env)
                 row = []
@@ -234,7 +267,8 @@ def run_history(ctx, nthreads, g0, ops):
             out = impl.step(op)
             views = impl.views()
             obs.append((out, views))
-            if dis is None and (out != model[i][0] or views != model[i][1]):  # (model[i][2] is the spec-side detypeFresh)
+            mviews = [None if v is None else m for v, m in zip(views, model[i][1])]
+            if dis is None and (out != model[i][0] or views != mviews):  # (model[i][2] is the spec-side detypeFresh)
                 dis = (i, {"out": fmt(out), "views": fmt(views)}, {"out": fmt(model[i][0]), "views": fmt(model[i][1])})
         return dis, obs, v0, [m[2] for m in model]
     finally:
@@ -258,10 +292,12 @@ def property_failures(nthreads, ops, obs, v0):
         # (2) isolation
         if name in ("enter", "exit"):
             for u in range(nthreads):
-                if u != t and views[u] != prev[u]:
+                if u != t and views[u] is not None and prev[u] is not None and views[u] != prev[u]:
                     fails.append((i, f"step {i}: {name} in thread {t} changed the views of thread {u}", None))
         # (3) agreement of read paths
         for u in range(nthreads):
+            if views[u] is None:
+                continue
             for k, (g, c, it) in zip(UNIVERSE, views[u]):
                 if (g is not None) != c:
                     fails.append((i, f"step {i}: thread {u} key {KEYS[k][0]}: [] and `in` disagree", None))
@@ -276,7 +312,7 @@ def property_failures(nthreads, ops, obs, v0):
                 o = ops[m]
                 if str(o[1]) in ("set", "del"):
                     touched.add(o[2])  # assignments made inside persist: exclude those keys (any thread: global layer)
-            for k, b, a in zip(UNIVERSE, before, views[t]):
+            for k, b, a in zip(UNIVERSE, before or [], views[t] or []):
                 if k in touched:
                     continue
                 if b != a:
@@ -338,6 +374,18 @@ def stream(ctx, n, length, name="histories"):
             ctx.spec_failure(case | {"upto": i}, {"impl": fmt(list(obs[i]))}, why, key)
         if dis:
             ctx.disagree(name, case | {"upto": dis[0]}, dis[1], dis[2])
+            if not fails:
+                # the model is proved to restore, isolate and mask (Props/C11.lean) and is what worker inheritance is defined by
+                # (a worker sees the swapped values its spawner had when it was spawned): a read path that departs from it
+                # is a departure from those clauses
+                i = dis[0]
+                spawned = any(str(o[1]) == "spawn" for o in ops[: i + 1])
+                why = (
+                    "a worker thread does not see exactly the swapped values its spawner had when it spawned it"
+                    if spawned and dis[1].get("out") == dis[2].get("out")
+                    else f"step {i} {fmt(ops[i])}: the read paths / result differ from the layered-environment rules"
+                )
+                ctx.spec_failure(case | {"upto": i}, {"impl": dis[1], "rules": dis[2]}, why, None)
 
 
 def classify_failure(nthreads, g0, ops, obs, i, why):
